@@ -236,29 +236,27 @@ Section Sim.
   Proof. intros H NR L. eapply run_mono; eassumption. Qed.
 
   (** ** text *)
-  Definition text_char (ex : str) (c : N) : bool := inert cx c && negb (mem_c c ex).
-
   Lemma text_char_tok ex cps ps pos ws c rest : Frame cx ex cps ps ->
-    ws_ok ws = true -> text_char ex c = true -> skipn pos s = ws ++ c :: rest ->
+    ws_ok ws = true -> char_ok cx ex c rest = true -> skipn pos s = ws ++ c :: rest ->
     impl_peek cps s pos = TokOk (mk TkChar [c] (pos + length ws) (S (pos + length ws)) ws []).
   Proof.
     intros F W TC SK. pose proof F as [SD _]. pose proof (std_view_of cx ps SD) as V.
-    unfold text_char in TC. apply andb_true_iff in TC. destruct TC as [I1 I2]. apply negb_true_iff in I2.
-    destruct (inert_facts cx c I1) as (SP & _).
+    destruct (char_ok_facts cx ex c rest TC) as (PS & I2 & TS).
+    destruct (plain_start_facts c PS) as (SP & _).
     rewrite (frame_peek1 cx ex cps ps s pos ws c rest F SK W SP I2).
-    rewrite (impl_peek_dispatch ps s pos ws c rest W SK SP). apply (dispatch_char cx ps V). exact I1.
+    rewrite (impl_peek_dispatch ps s pos ws c rest W SK SP). apply (dispatch_char2 cx ps V s _ ws c rest PS TS).
   Qed.
 
   Lemma chars_sim2 ex cps ps o r k : Frame cx ex cps ps -> opts_okF cps ps o -> r <> OutOfFuel ->
     forall cs st q pre pos fol,
-    forallb (text_char ex) cs = true -> skipn pos s = cs ++ fol ->
+    text_ok cx ex cs fol = true -> skipn pos s = cs ++ fol ->
     R k (TCollect cps o (push_pending st (pre ++ cs) q) (pos + length cs)) = r ->
     R (k + length cs) (TCollect cps o (push_pending st pre q) pos) = r.
   Proof.
     intros F OK NR.
     induction cs as [|c cs IH]; intros st q pre pos fol IN SK H.
     - cbn [length] in *. rewrite app_nil_r, Nat.add_0_r in H. rewrite Nat.add_0_r. exact H.
-    - cbn [forallb] in IN. apply andb_true_iff in IN. destruct IN as [I1 I2].
+    - cbn [text_ok] in IN. apply andb_true_iff in IN. destruct IN as [I1 I2].
       cbn [length]. replace (k + S (length cs)) with (S (k + length cs)) by lia.
       pose proof (text_char_tok ex cps ps pos [] c (cs ++ fol) F eq_refl I1 SK) as T.
       apply (rule_charF s cx _ cps ps o _ pos [] c r OK T).
@@ -271,12 +269,12 @@ Section Sim.
   Qed.
 
   Lemma text_sim2 ex cps ps o r k st pos ws c cs fol : Frame cx ex cps ps -> opts_okF cps ps o -> r <> OutOfFuel ->
-    ws_ok ws = true -> forallb (text_char ex) (c :: cs) = true -> skipn pos s = ws ++ (c :: cs) ++ fol ->
+    ws_ok ws = true -> text_ok cx ex (c :: cs) fol = true -> skipn pos s = ws ++ (c :: cs) ++ fol ->
     R k (TCollect cps o (push_pending st (ws ++ c :: cs) pos) (pos + length (ws ++ c :: cs))) = r ->
     R (k + 8 * length (ws ++ c :: cs)) (TCollect cps o st pos) = r.
   Proof.
     intros F OK NR W IN SK H.
-    cbn [forallb] in IN. apply andb_true_iff in IN. destruct IN as [I1 I2].
+    cbn [text_ok] in IN. apply andb_true_iff in IN. destruct IN as [I1 I2].
     pose proof (text_char_tok ex cps ps pos ws c (cs ++ fol) F W I1 SK) as T.
     apply (lift (S (k + length cs))); [|exact NR|rewrite app_length; cbn [length]; lia].
     apply (rule_charF s cx _ cps ps o _ pos ws c r OK T).
@@ -650,14 +648,15 @@ Section Sim.
       destruct cs as [|c [|? ?]]; try discriminate.
       apply andb_true_iff in OKA. destruct OKA as [OKA IN].
       apply andb_true_iff in OKA. destruct OKA as [AP WA].
-      destruct (inert_facts cx c IN) as (SPC & C92 & _).
+      destruct (char_ok_facts cx [] c fa IN) as (PSC & _ & TSC).
+      destruct (plain_start_facts c PSC) as (SPC & C92 & _).
       cbn [unparse_item2] in SK. rewrite <- app_assoc in SK. cbn [app] in SK.
       split; [|intros q SQ; apply (peek_no_err q pa ws c _ SQ WA SPC C92 SK)].
       assert (TP : forall pre pp, ws_ok pre = true -> skipn pp s = pre ++ c :: fa ->
                    impl_peek (sub_context aps [UEnEnvs false]) s pp
                    = TokOk (mk TkChar [c] (pp + length pre) (S (pp + length pre)) pre [])).
       { intros pre pp WP SKp. rewrite (impl_peek_dispatch _ s pp pre c fa WP SKp SPC).
-        apply (dispatch_char cx _ (std_view_of cx _ SDe)). exact IN. }
+        apply (dispatch_char2 cx _ (std_view_of cx _ SDe) s _ pre c fa PSC TSC). }
       cbn [expr_node2 item_ws2]. unfold ilen2. cbn [unparse_item2]. rewrite app_length. cbn [length].
       replace (pa + length ws + 1) with (S (pa + length ws)) by lia.
       replace (pa + (length ws + 1)) with (S (pa + length ws)) by lia.
@@ -866,12 +865,13 @@ Section Sim.
         apply andb_true_iff in OKA. destruct OKA as [OKA AP].
         apply andb_true_iff in OKA. destruct OKA as [E1 IN].
         apply N.eqb_eq in E1. subst ch.
-        destruct (inert_facts cx c IN) as (SPC & C92 & _).
+        destruct (char_ok_facts cx [] c fa IN) as (PSC & _ & TSC).
+        destruct (plain_start_facts c PSC) as (SPC & C92 & _).
         cbn [unparse_item2] in SK. rewrite <- app_assoc in SK. cbn [app] in SK.
         split; [|apply (peek_no_err ps pa ws c _ SD WA SPC C92 SK)].
         assert (T : impl_peek aps s pa = TokOk (mk TkChar [c] (pa + length ws) (S (pa + length ws)) ws [])).
         { rewrite (impl_peek_dispatch aps s pa ws c fa WA SK SPC).
-          apply (dispatch_char cx aps (std_view_of cx aps SDa)). exact IN. }
+          apply (dispatch_char2 cx aps (std_view_of cx aps SDa) s _ ws c fa PSC TSC). }
         unfold arg_fuel. cbn [is_abs item_ws2]. unfold ilen2. cbn [unparse_item2]. rewrite app_length. cbn [length].
         replace (8 * (length ws + 1)) with (S (S (8 * (length ws + 1) - 2))) by lia.
         rewrite (rule_tstdarg_chars s cx), (rule_tchars_present s cx _ aps c sp full pa ws T AP).
